@@ -1,4 +1,5 @@
 mod c13;
+mod c14;
 mod coqfmt;
 mod reflect;
 mod rng;
@@ -19,6 +20,7 @@ fn main() {
     let r = match cmd.as_str() {
         "reflect" => reflect::run(&out),
         "c13" => c13::run(&out, seed, thorough),
+        "c14" => c14::run(&out, seed, thorough),
         _ => { eprintln!("usage: hx <reflect|c13|...> --out DIR [--seed N] [--tier quick|thorough]"); std::process::exit(2); }
     };
     if let Err(e) = r { eprintln!("hx {}: error: {}", cmd, e); std::process::exit(3); }
